@@ -23,8 +23,7 @@ def problem(rng, kind):
     cfg["obs"] = dict(inputs=[[dy(rng) for _ in range(nv)] for _ in range(n)], vals=[[float(rng.randint(-2, 2))] for _ in range(n)])
     if kind == "ode":
         cfg["ic"] = dict(t0=dy(rng), u0=[float(rng.randint(-2, 2))])
-        if rng.random() < 0.5:       # a parameter batch on `a` (read by the equation only): every term keeps its own mask
-            cfg["a_batch"] = [dy(rng, 1, 3) for _ in range(n)]
+        cfg["a_batch_rows"] = [dy(rng, 1, 3) for _ in range(n)]       # used by every second specification (see generate)
     else:
         cfg["norm"] = dict(samples=[[dy(rng)] for _ in range(rng.randint(1, 3))], L=rng.choice([1.0, 2.0]))
         cfg["fb"] = prand(rng, nv, 1, 2) or {(0,) * nv: 1}
@@ -378,6 +377,8 @@ def generate(tier, seed, casedir, variant):
             masks = {t: list(bits[3 * i:3 * i + 3]) for i, t in enumerate(TERMS[kind])}
             if j % 25 == 24:
                 cfg = problem(rng, kind)
+            if kind == "ode":      # every second specification with a parameter batch on `a` (read by the equation only): each term keeps its own mask
+                cfg = dict(cfg, a_batch=cfg["a_batch_rows"] if j % 2 == 1 else None)
             try:
                 val, grad, terms = evaluate(cfg, masks)
             except Exception as ex:
